@@ -78,6 +78,11 @@ TEXT = {
         note="Deviation bound 1 (2 in the thorough tier). Benign races at tolerated positions are not asserted either way.",
         technique="exhaustive fault-position x fault-kind enumeration (deviation-bounded exploration) with differential convergence oracle",
     ),
+    "C04": dict(
+        level="Model checking of the ControllerRef rules: a complete decision table (selector forms, labels, owner-reference lists, deletion states, every divergence between cached and live parent) for children and ControllerRevisions, judged on the request log (adoption only after a fresh read of a live same-UID parent, adoption/release change only our reference, foreign references kept, never two controllers, non-matching desired children rejected before any write), plus exhaustive schedule exploration of two parents racing to adopt the same orphan.",
+        note="Trusts the sim's ObjectMeta validation for the two-controller clause; the race is explored at API-request granularity.",
+        technique="bounded-exhaustive decision-table enumeration + exhaustive interleaving exploration (cooperative scheduler, preemption-bounded DFS) on the real code",
+    ),
 }
 
 PENDING_REASON = "check not built yet in this session (planned in DESIGN.md §4); no claim is made until its check runs clean on the unchanged tree"
